@@ -10,6 +10,7 @@ package mcp
 import (
 	"context"
 	"fmt"
+	"net/http"
 	"slices"
 	"sort"
 	"strings"
@@ -132,6 +133,11 @@ func c18kServer(ttl int) *Server {
 
 type c18kCounts struct{ tools, prompts, resources, updated int }
 
+// c18kTransport selects how c18kConnect links client and server: "" / "inmem" (in-memory pipe) or
+// "http" (the streamable HTTP handler in process: stateful with a standalone SSE stream for legacy
+// versions, stateless with a subscriptions/listen stream per subscription for 2026-07-28).
+var c18kTransport = ""
+
 func c18kConnect(s *Server, version string, n *c18kCounts) (*ClientSession, error) {
 	ctx := context.Background()
 	cl := NewClient(&Implementation{Name: "cli", Version: "1"}, &ClientOptions{Logger: quietLogger,
@@ -140,6 +146,11 @@ func c18kConnect(s *Server, version string, n *c18kCounts) (*ClientSession, erro
 		ResourceListChangedHandler: func(context.Context, *ResourceListChangedRequest) { n.resources++ },
 		ResourceUpdatedHandler:     func(context.Context, *ResourceUpdatedNotificationRequest) { n.updated++ },
 	})
+	if c18kTransport == "http" {
+		h := NewStreamableHTTPHandler(func(*http.Request) *Server { return s }, &StreamableHTTPOptions{Stateless: version >= "2026-07-28", Logger: quietLogger})
+		hx := &hxTransport{Handler: h}
+		return cl.Connect(ctx, &StreamableClientTransport{Endpoint: "http://srv.test/mcp", HTTPClient: hx.client(), MaxRetries: -1}, &ClientSessionOptions{ProtocolVersion: version})
+	}
 	ct, st := NewInMemoryTransports()
 	if _, err := s.Connect(ctx, st, nil); err != nil {
 		return nil, err
@@ -356,14 +367,27 @@ func TestVerifC18Kinds(t *testing.T) {
 		}
 		cases.Record(idx, obs, 8, func() string { return desc })
 	}
-	for _, version := range []string{"2025-06-18", "2026-07-28"} {
-		for _, ttl := range []int{0, 60000} {
-			for _, k := range c18kKinds() {
-				run(fmt.Sprintf("list kind=%s version=%s ttl=%d", k.name, version, ttl), func() (string, string, string) { return c18kListCase(k, version, ttl) })
+	for _, tr := range []string{"inmem", "http"} {
+		via := func(f func() (string, string, string)) func() (string, string, string) {
+			return func() (o, sg, m string) {
+				c18kTransport = tr
+				defer func() { c18kTransport = "" }()
+				o, sg, m = f()
+				if sg != "" {
+					sg, m = sg+" transport="+tr, m+" [transport="+tr+"]"
+				}
+				return o + " " + tr, sg, m
 			}
-			run(fmt.Sprintf("read version=%s ttl=%d", version, ttl), func() (string, string, string) { return c18kReadCase(version, ttl) })
 		}
-		run(fmt.Sprintf("listen-independence version=%s", version), func() (string, string, string) { return c18kListenIndependence(version) })
+		for _, version := range []string{"2025-06-18", "2026-07-28"} {
+			for _, ttl := range []int{0, 60000} {
+				for _, k := range c18kKinds() {
+					run(fmt.Sprintf("list kind=%s version=%s ttl=%d transport=%s", k.name, version, ttl, tr), via(func() (string, string, string) { return c18kListCase(k, version, ttl) }))
+				}
+				run(fmt.Sprintf("read version=%s ttl=%d transport=%s", version, ttl, tr), via(func() (string, string, string) { return c18kReadCase(version, ttl) }))
+			}
+			run(fmt.Sprintf("listen-independence version=%s transport=%s", version, tr), via(func() (string, string, string) { return c18kListenIndependence(version) }))
+		}
 	}
 	env.Finish(res)
 }
